@@ -220,3 +220,29 @@ class EpollIoCancel(Unit):
             if comp and f.get("reg") != "0":
                 return "fixed model: registration left at completion: " + summary
         return None
+
+
+class EpollXfer(Unit):
+    """Data integrity through the real io_epoll_context (harness/k1_epoll_xfer.cpp): a writer loop and a
+    reader loop over one pipe of capacity 4096, buffer sizes below / at / above the capacity.  Direct
+    monitors only (bytes received = bytes sent, in order; every operation completes once; descriptors
+    released): nothing is projected onto a model."""
+    name = "io_epoll_context/xfer"; driver = "k1_epoll_xfer"; cfg = "shim17"; handler = "iocancel"
+    ctx = "io_epoll"
+    bound = {"quick": 1, "thorough": 2}
+    maxruns = {"quick": 150, "thorough": 3000}
+    nrandom = {"quick": 40, "thorough": 400}
+
+    def programs(self, tier):
+        progs = [("10000", "3000", "1000"), ("5000", "5000", "4096"), ("1", "1", "1"), ("9000", "100", "8192"),
+                 ("600", "600", "1")]
+        if tier != "quick":
+            progs += [("4097", "4097", "1"), ("20000", "4096", "4096"), ("8192", "8192", "8192")]
+        return progs
+
+    def project(self, prog, events):
+        return []
+
+
+def extra_units():
+    return [EpollXfer()]
